@@ -808,6 +808,17 @@ func (bs *blockState) codec(name string, args []Val, pos token.Pos) Val {
 		ex.unsup(pos, "unmarshal into non-pointer value")
 		return &Tuple{}
 	}
+	// The generated (gogoproto) Unmarshal the codec calls does not reset its target: bytes fields reuse the previous
+	// backing array and fields absent from the wire keep their previous content. "x = dec(bz)" therefore holds only for
+	// a target holding the zero value, which is a precondition of the call.
+	ex.trusted["codec: Unmarshal into a target holding the zero value yields exactly the decoded record (the generated Unmarshal does not reset its target; that the target is zero is an obligation at every call)"] = true
+	if cur, ok := bs.load(p, pos).(Term); ok && cur.Sort == s {
+		if z := ex.P.sorts.zeroOf(s); cur.S != z {
+			bs.safe("unmarshal-target-holds-the-zero-value", Term{"(= " + cur.S + " " + z + ")", "Bool"}, pos)
+		}
+	} else {
+		ex.unsup(pos, "unmarshal into a target whose content is not modelled")
+	}
 	bs.store(p, ex.define("dec", Term{"(dec_" + s + " " + bz.S + ")", s}), pos)
 	return &Tuple{}
 }
@@ -947,6 +958,11 @@ func (bs *blockState) builtin(b *ssa.Builtin, cc *ssa.CallCommon, resType types.
 		f := ex.fresh("cap", "Int")
 		return f
 	case "append":
+		// append(x[i:k], ...) writes into the spare capacity of x: the elements of x after k are overwritten, which value
+		// semantics cannot express (a three-index slice x[i:k:k] has no spare capacity and is fine)
+		if sl, ok := stripChange(cc.Args[0]).(*ssa.Slice); ok && sl.High != nil && sl.Max == nil {
+			ex.unsup(pos, "append to a sub-slice (x[i:k]) may overwrite the elements of x after k (slice aliasing not modelled)")
+		}
 		a := fr.value(cc.Args[0])
 		so := ex.P.sorts.sortOf(cc.Args[0].Type())
 		at := bs.tm(a, so, pos)
@@ -1009,4 +1025,14 @@ func (p *Program) mapFuncs(mapSort, keySort, elemSort string) (string, string) {
 		p.sorts.decls = append(p.sorts.decls, fmt.Sprintf("(declare-fun %s (%s %s) Bool)", has, mapSort, keySort), fmt.Sprintf("(declare-fun %s (%s %s) %s)", get, mapSort, keySort, elemSort))
 	}
 	return has, get
+}
+
+func stripChange(v ssa.Value) ssa.Value {
+	for {
+		if c, ok := v.(*ssa.ChangeType); ok {
+			v = c.X
+			continue
+		}
+		return v
+	}
 }
